@@ -1,5 +1,6 @@
 (* C07 -- the EXPECTED branch structure of every host function the C07 models cover (snapshot of the tree the
-   models were written against; pybaselines bf1c47d), and the comparison with what tools/gen_c07hosts.py reads off
+   models were written against; pybaselines bf1c47d, PenalizedSystem.solve refreshed at 00a2645: the added
+   check_output branch raises on a non-finite solution and is never taken by solve_pspline, which leaves check_output=False), and the comparison with what tools/gen_c07hosts.py reads off
    the current source on every run (gen/GenC07Hosts.v).  A new code path in a modelled host -- in particular one
    gated on the size of the data -- changes the list of branch tests and is refused.  Definitions only; the
    lemmas are in C07/HostsProofs.v so that [diff_hosts] can still be evaluated when they fail. *)
@@ -63,7 +64,7 @@ Definition expected_branches : list (string * list string) := [
   ("pybaselines/_banded_utils.py:_sparse_to_banded", ["data_size == expected_length and np.array_equal(np.sort(diag_matrix.offsets), np.arange(lower, upper + 1))"; "upper == diag_matrix.offsets[0]"]);
   ("pybaselines/_banded_utils.py:PenalizedSystem.add_penalty", []);
   ("pybaselines/_banded_utils.py:PenalizedSystem._update_bands", ["self.lower"; "self.lower"]);
-  ("pybaselines/_banded_utils.py:PenalizedSystem.solve", ["self.using_pentapy"; "self.lower"; "l_and_u is None"]);
+  ("pybaselines/_banded_utils.py:PenalizedSystem.solve", ["self.using_pentapy"; "self.lower"; "l_and_u is None"; "check_output and (not self.using_pentapy) and (not np.isfinite(output).all())"]);
   ("pybaselines/_algorithm_setup.py:_Algorithm._setup_spline", ["self._sort_order is not None and weights is not None"; "not make_basis"; "diff_order > 4"; "self._spline_basis is None or not self._spline_basis.same_basis(num_knots, spline_degree)"]);
   ("pybaselines/morphological.py:_Morphological.mpspline", ["half_window is not None"; "not 0 <= p <= 1"; "weights is None"; "pad_kwargs is not None"]);
   ("pybaselines/utils.py:pspline_smooth", [])
